@@ -152,6 +152,9 @@ macro_rules! harness_item {
     (@acc [$($a:tt)*] [tovec, $($r:ident,)*] fn $name:ident() $body:block) => {
         $crate::harness_item!{ @acc [$($a)* #[cfg_attr(kani, kani::stub(<[unic_langid_impl::subtags::Variant]>::to_vec, crate::stubs::to_vec))]] [$($r,)*] fn $name() $body }
     };
+    (@acc [$($a:tt)*] [string, $($r:ident,)*] fn $name:ident() $body:block) => {
+        $crate::harness_item!{ @acc [$($a)* #[cfg_attr(kani, kani::stub(std::string::String::push_str, crate::stubs::push_str))] #[cfg_attr(kani, kani::stub(std::string::String::push, crate::stubs::push_char))]] [$($r,)*] fn $name() $body }
+    };
     (@acc [$($a:tt)*] [nofmt, $($r:ident,)*] fn $name:ident() $body:block) => {
         $crate::harness_item!{ @acc [$($a)* #[cfg_attr(kani, kani::stub(alloc::fmt::format, crate::stubs::format))]] [$($r,)*] fn $name() $body }
     };
